@@ -137,6 +137,7 @@ class Summary:
         self.cases = []       # (CSet, retAV, heap)
 
 UNMODELLED = collections.Counter()
+LOSSY = collections.Counter()      # precision given up for speed (sound); reported in the evidence, not a verdict
 
 
 class Analyzer:
@@ -813,7 +814,9 @@ class Analyzer:
             try:
                 C = s.C.project(keep)
             except OverflowError:
-                C = CSet()
+                LOSSY["FM blowup in summary"] += 1
+                C = s.C.restrict(keep)
+            C = C.minimized()
             S.cases.append((C, v, heap))
         self.summaries[key] = S
         return S
@@ -1140,8 +1143,9 @@ class Analyzer:
         try:
             PA = A.C.project(keep); PB = B.C.project(keep)
         except OverflowError:
-            UNMODELLED["FM blowup in join"] += 1
-            PA = CSet(); PB = CSet()
+            # the exact projection is too expensive here: keep what is written over the live atoms already (a weaker, sound state)
+            LOSSY["FM blowup in join"] += 1
+            PA = A.C.restrict(keep); PB = B.C.restrict(keep)
         if widen_ and self.soft_widen:
             R.C = weak_join(PA, PB, relax=True, thresholds=[x for x in self.thresholds if 0 <= x < (1 << 20)])
             W = widen(PA, PB, self.thresholds)
@@ -1378,7 +1382,10 @@ class Analyzer:
                 self.oblige(st, [eq(args[2].e, outlen)], site, "C06.a dict-offset == len(output)", f"{args[2].e} == {outlen}")
         for fp, fv in self.force_ret.items():
             if path == fp or path.endswith(fp):
-                results = [(st, Bool("const", v=fv))]
+                if isinstance(fv, tuple) and fv[0] == "ok_int":      # hypothesis run: the call succeeded and returned this integer
+                    results = [(st, Enum(dest["ty"].get("adt", "std::result::Result"), 0, {(0, 0): Int(lin(fv[1]))}))]
+                else:
+                    results = [(st, Bool("const", v=fv))]
         # local callee?
         if results is None and (callee.get("resolved_local") or (callee.get("resolved") is None and callee.get("local"))):
             key = self.local_key(callee, f)
@@ -1449,7 +1456,7 @@ class Analyzer:
             def delta(A, H, combo):
                 e = lin(0)
                 for c, s in combo:
-                    if not isinstance(A.mem.get(c), Int): return None
+                    if not isinstance(A.mem.get(c), Int) or not isinstance(H.mem.get(c), Int): return None    # a cell only some partitions of the head hold
                     e = e + (A.mem[c].e - H.mem[c].e).scale(s)
                 return e
             combos = [((c, s),) for c in cand for s in (1, -1)]
@@ -2090,6 +2097,7 @@ MODELS = {
     "<std::result::Result<T, E> as std::ops::Try>::branch": m_try_branch,
     "<std::option::Option<T> as std::ops::Try>::branch": m_try_branch,
     "<std::result::Result<T, F> as std::ops::FromResidual<std::result::Result<std::convert::Infallible, E>>>::from_residual": m_from_residual,
+    "<std::option::Option<T> as std::ops::FromResidual<std::option::Option<std::convert::Infallible>>>::from_residual": m_from_residual,
     "std::option::Option::<T>::is_some": m_opt_is(True),
     "std::option::Option::<T>::is_none": m_opt_is(False),
     "std::option::Option::<T>::or": m_opt_or,
